@@ -103,7 +103,7 @@ inductive Api where
   | pathCopy (g : Nat)
   | newPathSet
   | psAdd (g p : Nat) (h : Int)            -- PathSet.Add: RETAINS the path (documented)
-  | psAddAllSteps (g p : Nat) (hs : List Int) -- PathSet.AddAllSteps: Add(path[:i]) for every i — RETAINS the path, all members share its array
+  | psAddAllSteps (g p : Nat) (hs : List Int) -- PathSet.AddAllSteps: Add(path[:i:i]) for every i — RETAINS the path, all members share its array (no spare capacity)
   | psHas (g p : Nat) (h : Int)
   | psRemove (g p : Nat) (h : Int)         -- PathSet.Remove: the bucket without the member is a fresh array
   | psList (g : Nat) (perm : List Nat)     -- the member paths themselves (Paths are immutable by convention)
@@ -295,10 +295,11 @@ def expandPending (m : Mem) (wk : Walker) : Mem × List Frame :=
 
 def boolTok (b : Bool) : List Tok := [.i (if b then 1 else 0)]
 
-/-- `path[:1], path[:2], … , path[:len]`: slice headers over the SAME backing array, each with
-the full capacity of `path` -/
-def pathPrefixes (arr off len cap : Nat) : List Word :=
-  (List.range len).map fun i => Word.slice arr off (i + 1) cap
+/-- `path[:1:1], path[:2:2], … , path[:len:len]`: slice headers over the SAME backing array, each
+WITHOUT spare capacity (since /repo 776b476; before it they were `path[:i]`, with the full capacity
+of `path`, so that appending to a listed member overwrote a step of a longer member) -/
+def pathPrefixes (arr off len _cap : Nat) : List Word :=
+  (List.range len).map fun i => Word.slice arr off (i + 1) (i + 1)
 
 /-- the caller's own mark set or the value's, as a list -/
 def valMarks (m : Mem) : Word → List String
@@ -617,7 +618,7 @@ def stepApi (st : St) : Api → Option St
       let m ← setAdd equivPath st.mem a pw h
       pure (st.withMem m)
     | _ => none
-  -- PathSet.AddAllSteps(path): for i := 1; i <= len(path); i++ { s.Add(path[:i]) }
+  -- PathSet.AddAllSteps(path): for i := 1; i <= len(path); i++ { s.Add(path[:i:i]) }
   | .psAddAllSteps g p hs => do
     let .set a ← st.go g | none
     let pw ← st.go p
